@@ -264,16 +264,45 @@ def wire_part(res, rng, tier):
     from vlib import gen_c03 as X
     batches = [(tree, cases, [dict(data=files[name], header=header, method=method, level='std', kind='base') for (name, header, method) in metas])]
     batches += X.wire_batches(rng.fork('audit'), tier, S, K)
+    # second audit pass: validators, precompressed neighbours, a second request in the read, what the client takes per write call,
+    # histories, answers larger than the file, several Range lines, namesakes and link chains (vlib/gen_c03.py feature_batches)
+    batches += X.feature_batches(rng.fork('audit2'), tier, S, K)
     results = K.run_batches([(t, cs) for t, cs, _ in batches], with_model=True)
     allmetas = [m for _, _, ms in batches for m in ms]
     for (c, r, il, ml), meta in zip(results, allmetas):
         res.evaluations += 1; res.programs += 1
-        res.distinct.add(hash(('wire', c.entry, c.raw)))
+        res.distinct.add(hash(('wire', c.entry, c.raw, c.ws)))
         if il != ml: res.disagree(c.line[:300], il[:300], (ml or '')[:300], 'Range / Response.generate_response on the wire')
-        if r['head'].startswith(('panic', 'abort')): continue      # C04's finding
-        resp, why = K.parse_resp(r['writes'][0] if r['writes'] else b'')
-        if resp is None: continue                                    # framing: C05
-        judge_wire(res, c, resp, meta)
+        judge_case(res, c, r, meta, K)
+    # the files change between two answers; files beyond 2^31 and 2^32 bytes (runners of their own: props/c03_features.py)
+    from props import c03_features as F
+    F.churn(res, rng.fork('churn'), tier)
+    F.sparse(res, rng.fork('sparse'), tier)
+
+def judge_case(res, c, r, meta, K):
+    """one case of the wire part: the bytes the connection RECEIVED (every buffer the server handed over, in the steps the client
+    took them), read as a stream of answers, each judged with the request it answers"""
+    from props import c03_features as F
+    data, header, method = meta['data'], meta['header'], meta['method']
+    specs = strict_specs(header)
+    allin = specs is not None and all(inside(s, len(data)) is not None for s in specs)
+    ln = c.line[:300]
+    if r['head'].startswith(('panic', 'abort')):
+        # no answer at all is C04's finding for any input; for a header whose ranges all lie inside the file it is also this property's:
+        # `the answer is 206 carrying ...`
+        if meta['level'] == 'std' and allin and method in ('GET', 'HEAD'):
+            res.fail('wire-no-answer', ln, r['head'][:200], None, f'C03: Range {header[:80]!r} on a file of {len(data)} bytes ({c.raw[:60]!r}): every range lies inside the file '
+                     f'but the server gave no answer ({r["head"][:80]})')
+        return
+    raw = r['recv'] if r['recv'] else (r['writes'][0] if r['writes'] else b'')
+    first, rest = F.split_answers(raw, method) if meta.get('second') else (raw, b'')
+    resp, why = K.parse_resp(first)
+    if resp is None: return                                       # framing: C05
+    judge_wire(res, c, resp, meta)
+    if rest:
+        m2 = dict(meta['second'])
+        resp2, why = K.parse_resp(F.split_answers(rest, m2['method'])[0])
+        if resp2 is not None: judge_wire(res, c, resp2, m2)
 
 CRANGE = re.compile(r'^bytes (\d+)-(\d+)/(\d+)$')
 
@@ -297,6 +326,25 @@ def judge_wire(res, c, resp, meta):
         if not m: return f'Content-Range {hd.get("content-range")!r}'
         return [(int(m.group(1)), int(m.group(2)), int(m.group(3)), resp['body'])]
     if method == 'OPTIONS': return          # an answer without a body and without the 206: the codec part judges its range list
+    if hd.get('content-encoding', 'identity').strip().lower() not in ('', 'identity'):
+        # the answer declares a content coding: its ranges are ranges of the encoded representation (RFC 9110 section 14), which the
+        # statement does not speak about
+        res.count('wire answer with a Content-Encoding: not judged'); return
+    if method == 'HEAD' and level in ('anyof', 'loose') and hd.get('content-type', '').lower().startswith('multipart/byteranges'):
+        return                               # the labels of the parts are in the body, which HEAD does not send
+    if level == 'anyof':
+        # the target may name one of several files (a page and a directory of the same name ...): which one is C02's business; size and
+        # bytes must be those of ONE of them
+        cands = meta['candidates']
+        if st == 200 and method == 'GET':
+            if not any(resp['body'] == d for d in cands): res.fail('wire-200-not-the-file', ln, f'body {len(resp["body"])} bytes', None, what + ': answered 200 with something else than one of the files the target can name')
+        elif st == 206:
+            parts = carried()
+            if isinstance(parts, str) or not parts: res.fail('wire-206-unreadable', ln, str(parts)[:200], None, what + ': 206 that cannot be read: ' + str(parts)[:120]); return
+            if not any(all(0 <= a <= b < len(d) and size == len(d) and (method != 'GET' or body == d[a:b + 1]) for (a, b, size, body) in parts) for d in cands):
+                a, b, size, body = parts[0]
+                res.fail('wire-bytes-from-other-offsets', ln, f'part {a}-{b}/{size}, {len(body)} bytes', None, what + f': the parts (first: {a}-{b}/{size}) are not slices of any ONE of the files the target can name (sizes {[len(d) for d in cands]}) with its size')
+        return
     if level == 'loose':
         # the request around the Range value is unusual (version, line ends, blanks, repeated header): whether the header counts is
         # not this property's business; what is sent must still never be bytes from other offsets
@@ -472,6 +520,11 @@ def run(res, tier, seed):
         if isinstance(f, int): ff, data = filefield(f, None)
         else: ff, data = C.hx(f), f
         get(ff, data, header, has, method, kind=kind.split(':')[0])
+    # 2d. second audit pass: answers larger than the file (ranges that cover it several times), the same path with changing content
+    for (f, header, has, method, kind) in X.codec_cases2(rng.fork('audit2-codec'), tier):
+        if isinstance(f, int): ff, data = filefield(f, None)
+        else: ff, data = C.hx(f), f
+        get(ff, data, header, has, method, kind=kind)
     for L in X.EXTRA_LENGTHS:
         ff, data = filefield(L, None)
         for s in singles(L, tier != 'quick'): get(ff, data, 'bytes=' + s, kind='single-extra-length')
@@ -520,7 +573,13 @@ def run(res, tier, seed):
                 'contents made of line ends / blanks / BOM / NUL / the multipart delimiter; on the wire: the same bytes under 45 file '
                 'extensions, header-name spellings and look-alike neighbours, query / fragment / nested / link / index / .html targets, '
                 'HEAD and OPTIONS, the whole offset set and unit spellings (416-or-clamped judged on the wire), unusual request framing '
-                '(never-other-bytes clause only). A case is non-trivial when the '
+                '(never-other-bytes clause only). Added by the second audit (feature_batches, props/c03_features.py): validators next to the Range '
+                'header (If-Range, If-None-Match, If-Modified-Since ...), precompressed neighbours x Accept-Encoding, a second request in the same '
+                'read (answers judged as a stream), transports that take 1..65536 bytes per write call (the RECEIVED bytes are judged, not the first '
+                'buffer), histories by the relation of a request to the one before it, the served directory rebuilt between two answers (same '
+                'length other bytes, grown, shrunk, link re-pointed), ranges that cover the file several times, several Range lines, a file and its '
+                'namesakes (n/index.html and n.html), link chains, sparse files of 2^31 .. 2^32 + 8 KiB bytes (real code alone); no answer at all '
+                'for ranges inside the file is a failure of this property too. A case is non-trivial when the '
                 'header value is non-empty; distinct = distinct protocol lines' % (lengths,))
     res.exhaustive = ('files of length 0..8: every single range-spec over the full offset set and every pair of specs over %s'
                       % ('the full offset set' if pair_full else 'the full offset set for L <= 2, the offsets {0,1,L-2,L-1,L,L+1,"","x"} (first-last, first-, -last, bare) for L = 3..8'))
